@@ -358,6 +358,7 @@ impl<'a> M<'a> {
                 self.end_task();
             }
             Ctl::Op(_, Op::Restart | Op::RestartSig { .. } | Op::Delete | Op::DeleteNow) => unreachable!("composites are expanded on arrival"),
+            Ctl::Op(_, Op::RunStall { .. }) => unreachable!("not modelled: filtered out before the model runs"),
         }
     }
     fn handle_exit(&mut self, k: u32) {
@@ -389,6 +390,9 @@ pub fn run_model(scn: &E1Scn) -> ModelResult {
     let mut t = 0;
     let mut arrivals = VecDeque::new();
     for (i, st) in scn.senders[0].iter().enumerate() {
+        if matches!(st.op, Op::RunStall { .. }) {
+            return ModelResult::Ambiguous("stalled job task (slow-node fault) is not modelled");
+        }
         if st.inline {
             return ModelResult::Ambiguous("inline-awaited steps are not modelled");
         }
@@ -520,7 +524,7 @@ pub fn observed_trace(scn: &E1Scn, out: &RunOut) -> Vec<(u64, Obs)> {
 // ------------------------------------------------------------------------------------------
 // scenario generation: bounded-exhaustive + random, single sender, tie-avoiding durations
 
-/// alphabet for the exhaustive part (17 letters)
+/// alphabet for the exhaustive part (18 letters)
 fn letter(k: u64, sig: &mut e1::SigAlloc) -> Op {
     match k {
         0 => Op::Start,
@@ -539,10 +543,12 @@ fn letter(k: u64, sig: &mut e1::SigAlloc) -> Op {
         13 => Op::SetHook { async_ms: None },
         14 => Op::SetHook { async_ms: Some(3) },
         15 => Op::UnsetHook,
-        _ => Op::SetErr { async_ms: None },
+        16 => Op::SetErr { async_ms: None },
+        // signal(ForceStop): kills without the job noticing until the process end is observed
+        _ => Op::Signal { sig: 9 },
     }
 }
-pub const ALPHA: u64 = 17;
+pub const ALPHA: u64 = 18;
 /// child behaviour classes with durations chosen off the grid of send instants and graces
 fn klass(k: u64) -> ChildSpec {
     match k {
@@ -764,7 +770,7 @@ impl Check for C09 {
         !matches!(run_model(scn), ModelResult::Ambiguous(_)) && out.hist.iter().any(|r| matches!(r.ev, Ev::Spawn { .. }))
     }
     fn rule(&self) -> String {
-        "quick: every control sequence of length <= 3 over a 17-letter alphabet x {burst, settled} x 6 child behaviour classes x 3 spawn-failure plans, then seeded-random sequences of length 2-30 (thorough: length <= 4 under two schedule seeds, then random); each run under a seeded scheduling policy. distinct = distinct hash of the recorded history; non-trivial = the scenario is tie-free (so it was compared observation by observation with the reference model) and spawned at least one child".into()
+        "quick: every control sequence of length <= 3 over an 18-letter alphabet x {burst, settled} x 6 child behaviour classes x 3 spawn-failure plans, then seeded-random sequences of length 2-30 (thorough: length <= 4 under two schedule seeds, then random); each run under a seeded scheduling policy. distinct = distinct hash of the recorded history; non-trivial = the scenario is tie-free (so it was compared observation by observation with the reference model) and spawned at least one child".into()
     }
     fn required_probes(&self, _tier: Tier) -> Vec<&'static str> {
         vec!["probe:compared-with-model", "fault:spawn-failure", "probe:spawn-hook-called", "probe:kill", "probe:job-task-ended"]
